@@ -86,11 +86,11 @@ impl<C: KeyColl> FaultExec for KeyExec<C> {
         let t = if self.t_last == i32::MIN { 0 } else { self.t_last };
         let hi = self.model.iter().map(|e| e.0).max().unwrap_or(1) + 2;
         self.step(&KOp::Empty, &KMON_ALL, rep)?;
-        for p in 0..=hi {
+        for p in -1..=hi {
             self.step(&KOp::Get { t, k: p }, &KMON_ALL, rep)?;
             self.step(&KOp::Fl { t, k: p }, &KMON_ALL, rep)?;
             self.step(&KOp::Fle { t, k: p }, &KMON_ALL, rep)?;
-            self.step(&KOp::Fleb { t, k: p, mode: (p % 3) as u8 }, &KMON_ALL, rep)?;
+            self.step(&KOp::Fleb { t, k: p, mode: p.rem_euclid(3) as u8 }, &KMON_ALL, rep)?;
         }
         Ok(())
     }
@@ -412,17 +412,17 @@ pub fn history_for(cfg: &Cfg, h: u64) -> (&'static str, String, Vec<String>) {
                 rng.shuffle(&mut keys);
                 for &k in &keys {
                     let exp = if rng.chance(1, 3) { rng.range(3, 6) } else { 100 };
-                    lines.push(KOp::Ins { k: 2 * k + 1, exp: exp as i32, t: 0 }.line());
+                    lines.push(KOp::Ins { k: 2 * k, exp: exp as i32, t: 0 }.line());
                 }
                 lines.push(format!("#from {}", n));
                 for t in [5, 5, 6, 7] {
-                    let p = rng.range(0, 2 * n as i64) as i32;
+                    let p = rng.range(-1, 2 * n as i64) as i32;
                     lines.push(match rng.below(5) {
                         0 => KOp::Get { t, k: p },
                         1 => KOp::Fl { t, k: p },
                         2 => KOp::Fle { t, k: p },
                         3 => KOp::Fleb { t, k: p, mode: rng.below(3) as u8 },
-                        _ => KOp::Ins { k: 2 * n as i32 + 1 + 2 * t, exp: t + 3, t },
+                        _ => KOp::Ins { k: 2 * n as i32 + 2 * t, exp: t + 3, t },
                     }
                     .line());
                 }
@@ -445,14 +445,14 @@ pub fn history_for(cfg: &Cfg, h: u64) -> (&'static str, String, Vec<String>) {
                 let mut keys: Vec<i32> = (0..n as i32).collect();
                 rng.shuffle(&mut keys);
                 for &k in &keys {
-                    lines.push(OOp::Ins { k: 2 * k + 1 }.line());
+                    lines.push(OOp::Ins { k: 2 * k }.line());
                 }
                 lines.push(format!("#from {}", n));
                 for _ in 0..5 {
-                    let p = rng.range(0, 2 * n as i64) as i32;
+                    let p = rng.range(-1, 2 * n as i64) as i32;
                     lines.push(match rng.below(6) {
-                        0 => OOp::Ins { k: 2 * p },
-                        1 => OOp::Del { k: 2 * (p / 2) + 1 },
+                        0 => OOp::Ins { k: 2 * p.max(0) + 1 },
+                        1 => OOp::Del { k: 2 * (p.max(0) / 2) },
                         2 => OOp::DelH { k: p },
                         3 => OOp::FilB { k: p, mode: rng.below(3) as u8 },
                         4 => OOp::Wrh { k: p },
@@ -460,7 +460,7 @@ pub fn history_for(cfg: &Cfg, h: u64) -> (&'static str, String, Vec<String>) {
                     }
                     .line());
                 }
-                return (coll, format!("hint=8 uni=0..{}", 2 * n + 2), lines);
+                return (coll, format!("hint=8 uni=-1..{}", 4 * n + 2), lines);
             }
         }
     }
